@@ -461,6 +461,402 @@ def hop_stream(ctx):
     return after
 
 # ------------------------------------------------------------------------------------------------
+# operation histories: whatever sequence of public operations produced a molecule, every atom with localised bonds must
+# afterwards carry the count the rules give for its (element, charge, radical, bonds) — unless nothing about the atom changed
+# ------------------------------------------------------------------------------------------------
+
+CALL_VARIANTS = [
+    ('canonicalize', {}), ('canonicalize', {'keep_kekule': True}), ('canonicalize', {'fix_tautomers': False}),
+    ('canonicalize', {'keep_kekule': True, 'fix_tautomers': False}), ('canonicalize', {'logging': True, 'keep_kekule': True}),
+    ('standardize', {}), ('standardize', {'fix_tautomers': False}), ('standardize', {'logging': True}),
+    ('standardize_charges', {}), ('standardize_charges', {'prepare_molecule': False}), ('standardize_charges', {'logging': True}),
+    ('neutralize', {}), ('neutralize', {'keep_charge': False}), ('fix_resonance', {}),
+    ('remove_coordinate_bonds', {}), ('remove_coordinate_bonds', {'keep_to_terminal': False}), ('remove_metals', {}),
+    ('kekule', {}), ('thiele', {}), ('thiele', {'fix_tautomers': False}), ('clean_isotopes', {}),
+    ('implicify_hydrogens', {}), ('explicify_hydrogens', {}), ('fix_structure', {}),
+]
+METALS = ['Cu', 'Pd', 'Zn', 'Fe', 'Na', 'Pt', 'Mg']
+
+
+def atom_ctx(mol, n):
+    """(z, charge, radical, sorted localised+aromatic (order, neighbour z) without coordinate bonds)"""
+    a = mol._atoms[n]
+    return (a.atomic_number, a._charge, bool(a._is_radical),
+            tuple(sorted((b.order, mol._atoms[k].atomic_number) for k, b in mol._bonds[n].items() if b.order != 8)))
+
+
+def do_edit(m, e, state, **kw):
+    """one structural (or direct attribute) edit; -1 refers to the atom added last in this history"""
+    ref = lambda x: state['last'] if x == -1 else x
+    k = e[0]
+    if k == 'add_bond':
+        m.add_bond(ref(e[1]), ref(e[2]), e[3], **kw)
+    elif k == 'delete_bond':
+        m.delete_bond(ref(e[1]), ref(e[2]), **kw)
+    elif k == 'delete_atom':
+        m.delete_atom(ref(e[1]), **kw)
+    elif k == 'add_atom':
+        state['last'] = m.add_atom(e[1], **kw)
+    elif k == 'charge':
+        m.atom(ref(e[1])).charge = e[2]
+    elif k == 'radical':
+        m.atom(ref(e[1])).is_radical = bool(e[2])
+    else:
+        raise ValueError(f'unknown edit {e}')
+
+
+def apply_history(src, ops):
+    """run a list of operations of the public API on a copy of `src`; returns the resulting molecules"""
+    c = src.copy()
+    c._changed = None
+    c._backup = None
+    cur = [c]
+    state = {'last': None}
+    for op in ops:
+        k = op[0]
+        nxt = []
+        for m in cur:
+            have = set(m._atoms)
+            if k == 'call':
+                getattr(m, op[1])(**op[2])
+                nxt.append(m)
+            elif k == 'substructure':
+                nxt.append(m.substructure([x for x in op[1] if x in have]))
+            elif k == 'and':
+                nxt.append(m & [x for x in op[1] if x in have])
+            elif k == 'sub':
+                nxt.append(m - [x for x in op[1] if x in have])
+            elif k == 'augmented':
+                nxt.append(m.augmented_substructure([x for x in op[1] if x in have], deep=op[2]))
+            elif k == 'augmenteds':
+                nxt += m.augmented_substructures([x for x in op[1] if x in have], deep=op[2])
+            elif k == 'split':
+                nxt += m.split()
+            elif k == 'union':
+                nxt.append(m | molgen.parse(op[1]))
+            elif k == 'copy':
+                nxt.append(m.copy())
+            elif k == 'transaction':
+                with m:
+                    for e in op[1]:
+                        do_edit(m, e, state)
+                nxt.append(m)
+            elif k == 'batch':
+                for e in op[1]:
+                    do_edit(m, e, state, _skip_calculation=True)
+                m.fix_structure()
+                nxt.append(m)
+            elif k == 'edits':
+                for e in op[1]:
+                    do_edit(m, e, state)
+                nxt.append(m)
+            else:
+                raise ValueError(f'unknown op {op}')
+        cur = nxt
+    return cur
+
+
+def judge_history(src, results, calc_of, accepts, ops):
+    """The clause: for every atom of every result with localised bonds, stored count == the rules' count for its present
+    (element, charge, radical, bonds); the old count may stay only if the atom's state did not change at all; an atom that
+    lost explicit hydrogens may carry any count the rules accept (implicify picks the first rule with h >= removed).
+    `calc_of(res_index, n, ctx)` and `accepts(res_index, n, ctx, h)` are the rule evaluators (Lean model, or raw tables)."""
+    bad = []
+    for ri, res in enumerate(results):
+        for n, a in res._atoms.items():
+            cx = atom_ctx(res, n)
+            if any(o == 4 for o, _ in cx[3]):
+                continue
+            mark = a._implicit_hydrogens
+            want = calc_of(ri, n, cx)
+            if mark == want:
+                continue
+            if n in src._atoms:
+                old = atom_ctx(src, n)
+                if old == cx and src._atoms[n]._implicit_hydrogens == mark:
+                    continue   # untouched atom keeps what it had (possibly a count given by the user)
+                lost_h = Counter(old[3])[(1, 1)] > Counter(cx[3])[(1, 1)] and old[:3] == cx[:3]
+                if lost_h and mark is not None and accepts(ri, n, cx, mark):
+                    continue
+            bad.append((ri, n, a.atomic_symbol, cx[1], mark, want, list(cx[3])))
+    return bad
+
+
+def random_subset(rng, mol):
+    ids = list(mol._atoms)
+    if rng.random() < 0.6:   # connected blob grown from a seed atom
+        start = rng.choice(ids)
+        sel, frontier = {start}, [start]
+        size = rng.randint(1, max(1, min(len(ids) - 1, 8)))
+        while frontier and len(sel) < size:
+            x = frontier.pop(rng.randrange(len(frontier)))
+            for k in mol._bonds[x]:
+                if k not in sel and len(sel) < size and rng.random() < 0.8:
+                    sel.add(k)
+                    frontier.append(k)
+        return sorted(sel)
+    return sorted(rng.sample(ids, rng.randint(1, max(1, len(ids) - 1))))
+
+
+def random_edits(rng, mol, k, attribute_edits=False):
+    """k structural edits that are valid one after the other on `mol` (simulated on the adjacency only)"""
+    adj = {n: set(ms) for n, ms in mol._bonds.items()}
+    order = {(n, m): b.order for n, ms in mol._bonds.items() for m, b in ms.items()}
+    edits = []
+    new = False
+    for _ in range(k):
+        ids = [n for n in adj]
+        kind = rng.choice(['add_bond', 'delete_bond', 'delete_bond', 'delete_atom', 'add_atom'] + (['charge', 'radical'] if attribute_edits else []))
+        if kind == 'delete_bond':
+            pairs = [(n, m) for n in ids for m in adj[n] if order.get((n, m), 1) != 4]
+            if not pairs:
+                continue
+            n, m = rng.choice(pairs)
+            adj[n].discard(m)
+            adj[m].discard(n)
+            edits.append(['delete_bond', n, m])
+        elif kind == 'add_bond':
+            if len(ids) < 2:
+                continue
+            n, m = rng.sample(ids, 2)
+            if m in adj[n]:
+                continue
+            adj[n].add(m)
+            adj[m].add(n)
+            o = rng.choice([1, 1, 1, 2, 8])
+            order[(n, m)] = order[(m, n)] = o
+            edits.append(['add_bond', n, m, o])
+        elif kind == 'delete_atom':
+            if len(ids) < 3:
+                continue
+            n = rng.choice(ids)
+            for m in adj.pop(n):
+                adj[m].discard(n)
+            edits.append(['delete_atom', n])
+        elif kind == 'add_atom':
+            if new:
+                continue
+            new = True
+            n = rng.choice(ids)
+            edits.append(['add_atom', rng.choice(['C', 'N', 'O', 'Cl', 'S'])])
+            edits.append(['add_bond', n, -1, 1])
+        elif kind == 'charge':
+            edits.append(['charge', rng.choice(ids), rng.choice([-1, 1, 0])])
+        else:
+            edits.append(['radical', rng.choice(ids), rng.choice([0, 1])])
+    return edits
+
+
+def complexes(rng, mol, k=1):
+    """attach k metal atoms by coordinate (order 8) bonds to heteroatoms, through the public API"""
+    m = mol.copy()
+    m._changed = None
+    m._backup = None
+    donors = [n for n, a in m._atoms.items() if a.atomic_number in (7, 8, 15, 16, 17)]
+    if not donors:
+        return None
+    for _ in range(k):
+        x = m.add_atom(rng.choice(METALS))
+        for d in rng.sample(donors, min(len(donors), rng.randint(1, 2))):
+            m.add_bond(d, x, 8)
+    return m
+
+
+def cations(rng, mol):
+    """quaternise / protonate a ring nitrogen that carries a double bond (Kekule form), then optionally aromatise"""
+    m = mol.copy()
+    m._changed = None
+    m._backup = None
+    try:
+        m.kekule()
+    except Exception:
+        return None
+    cand = [n for n, a in m._atoms.items() if a.atomic_number == 7 and a._charge == 0 and a.in_ring and a._implicit_hydrogens == 0
+            and sum(b.order for b in m._bonds[n].values()) == 3 and any(b.order == 2 for b in m._bonds[n].values())]
+    if not cand:
+        return None
+    n = rng.choice(cand)
+    m._atoms[n]._charge = 1
+    if rng.random() < 0.7:
+        x = m.add_atom('C')
+        m.add_bond(n, x, 1)
+    else:
+        m.flush_cache()
+        m.fix_structure()
+    if rng.random() < 0.5:
+        try:
+            m.thiele()
+        except Exception:
+            return None
+    return m
+
+
+def history_cases(ctx):
+    """(name, source molecule, ops) triples"""
+    rng = ctx.rng
+    q = ctx.quick
+    pool = []
+    _HANDMADE_NAMES.clear()
+    for smi in HOP_HANDMADE + ['OCCN(C)C', 'CC(C)CO', 'CCNCC', 'C1CCC1CS', 'CC(=O)CC', 'CC(=O)NC', 'C=CC#N', 'OCCN(C)~[Cu]', 'CS(CCO)~[Pd]',
+                               'CN(C)CCN(C)~[Cu]', 'CC(=O)OC~[Zn]', 'Cn1cc[n+](C)c1', 'C[n+]1ccccc1', 'CC1=CNC=[NH+]1', 'c1cc[nH+]cc1', 'C[N+]1=CC=CN1C',
+                               'CC(=O)[O-].[Na+]', 'C[N+](C)(C)CC([O-])=O', 'O=C1C=CNC=C1', 'Oc1ccncc1', 'NC(=N)N', 'CS(C)=O', 'C[S+](C)[O-]', 'CN=[N+]=[N-]',
+                               'C[N+]([O-])=O', 'CN(=O)=O', 'OP(O)(O)=O', 'Cl[Pt](Cl)(N)N', 'N~[Pt](~N)(Cl)Cl', 'C1=CC=CC=C1', 'c1ccc2[nH]ccc2c1']:
+        m = molgen.parse(smi)
+        if m is not None:
+            pool.append((smi, m))
+            _HANDMADE_NAMES.add(smi)
+    pool += molgen.handmade()[:: (3 if q else 1)]
+    pool += molgen.corpus(rng, 40 if q else 500)
+    derived = []
+    for name, m in pool:
+        for tag, f in (('complex', lambda x: complexes(rng, x, rng.randint(1, 2))), ('cation', lambda x: cations(rng, x)),
+                       ('mixedH', lambda x: make_mixed(rng, x))):
+            if rng.random() < (0.5 if q else 0.8):
+                try:
+                    d = f(m)
+                except Exception:
+                    d = None
+                if d is not None:
+                    derived.append((f'{name}/{tag}', d))
+    pool += derived
+    cases = []
+    # charged heteroaromatics (ring nitrogen quaternised / protonated, charge possibly not on the canonical atom): every option
+    # combination of the standardisation entry points, because the rarely used paths restore / move bond orders and charges
+    charged = [(n, m) for n, m in pool if n.endswith('/cation') or (any(a._charge for a in m._atoms.values()) and len(pool) and n in _HANDMADE_NAMES)]
+    smis = [x for x in molgen.corpus_smiles() if 'n' in x]
+    for i in rng.sample(range(len(smis)), min(len(smis), 25 if q else 250)):
+        m = molgen.parse(smis[i])
+        if m is None:
+            continue
+        for j in range(2):
+            try:
+                d = cations(rng, m)
+            except Exception:
+                d = None
+            if d is not None:
+                charged.append((f'corpus-n[{i}]/cation{j}', d))
+    for name, m in charged:
+        for meth, kw in CALL_VARIANTS:
+            if meth in ('canonicalize', 'standardize', 'standardize_charges', 'neutralize', 'thiele', 'kekule', 'fix_resonance'):
+                cases.append((name, m, [['call', meth, kw]]))
+    ctx.dist('history/charged-heteroaromatics', len(charged))
+    for name, m in pool:
+        if len(m) < 2:
+            continue
+        reps = 2 if q else 3
+        for _ in range(reps):   # operations with (non-default) options, sometimes two in a row
+            ops = [['call', *rng.choice(CALL_VARIANTS)]]
+            if rng.random() < 0.3:
+                ops.append(['call', *rng.choice(CALL_VARIANTS)])
+            cases.append((name, m, ops))
+        for _ in range(reps):   # cutting: substructure / & / - / augmented / split / union
+            sel = random_subset(rng, m)
+            kind = rng.choice(['substructure', 'and', 'sub', 'augmented', 'augmenteds', 'split', 'union', 'copy'])
+            if kind in ('substructure', 'and', 'sub'):
+                ops = [[kind, sel]]
+            elif kind in ('augmented', 'augmenteds'):
+                ops = [[kind, sel[:2], rng.randint(0, 2)]]
+            elif kind == 'union':
+                ops = [['union', rng.choice(['O', 'C[NH3+]', '[Na+]', 'c1ccccc1'])], ['substructure', sel]]
+            else:
+                ops = [[kind]]
+            if rng.random() < 0.25:
+                ops.append(['call', *rng.choice(CALL_VARIANTS)])
+            cases.append((name, m, ops))
+        for _ in range(reps):   # edit histories: transaction / postponed batch / one by one, 1..3 edits
+            edits = random_edits(rng, m, rng.randint(1, 3), attribute_edits=ATTRIBUTE_EDITS_IN_TRANSACTIONS)
+            if not edits:
+                continue
+            mode = rng.choice(['transaction', 'transaction', 'batch', 'edits'])
+            if mode != 'transaction':
+                edits = [e for e in edits if e[0] not in ('charge', 'radical')]
+                if not edits:
+                    continue
+            ops = [[mode, edits]]
+            if rng.random() < 0.2:
+                ops.append(['transaction', random_edits(rng, m, 1) or [['add_atom', 'C']]])
+            cases.append((name, m, ops))
+    return cases
+
+
+ATTRIBUTE_EDITS_IN_TRANSACTIONS = True   # documented usage: `with mol: mol.atom(n).charge = q` (fixed defect C04/transaction/direct-edit)
+_HANDMADE_NAMES = set()
+
+
+def run_history(src, ops):
+    """('ok', results) | (error class, None): library errors and rejected edits are not results to judge"""
+    from chython.exceptions import ValenceError, MappingError, AtomNotFound, InvalidAromaticRing
+    try:
+        return 'ok', apply_history(src, ops)
+    except (ValenceError, MappingError, AtomNotFound, InvalidAromaticRing) as e:
+        return 'lib:' + type(e).__name__, None
+    except (KeyError, ValueError, IndexError, TypeError, AttributeError, StopIteration) as e:
+        return 'E:' + type(e).__name__, None
+
+
+def history_stream(ctx):
+    cases = history_cases(ctx)
+    done = []
+    reqs = []
+    for name, src, ops in cases:
+        status, results = run_history(src, ops)
+        kind = ops[0][1] if ops[0][0] == 'call' else ops[0][0]
+        ctx.dist(f'history/{kind}/{status}')
+        if results is None:
+            continue
+        done.append((name, src, ops, results, len(reqs)))
+        reqs += ['mol ' + wire.mol_to_line(r) for r in results]
+    resp = core.run_driver('C04', reqs) if reqs else []
+    for name, src, ops, results, off in done:
+        model = []
+        for i, r in enumerate(results):
+            d = parse_mol_line(resp[off + i])
+            model.append((dict(zip(r._atoms, d.get('calc', '').split())), dict(zip(r._atoms, d.get('chk', '').split()))))
+
+        def calc_of(ri, n, cx):
+            v = model[ri][0].get(n)
+            return None if v in (None, '-1', 'E') else int(v)
+
+        def accepts(ri, n, cx, h):
+            return model[ri][1].get(n) == '1'
+
+        bad = judge_history(src, results, calc_of, accepts, ops)
+        key = (wire.mol_to_line(src), json.dumps(ops))
+        ctx.count(('history', key), nontrivial=any(atom_ctx(r, n) != (atom_ctx(src, n) if n in src._atoms else None)
+                                                  for r in results for n in r._atoms))
+        if bad:
+            ctx.cov['disagreements_checked'] += 1
+            ctx.c04_bad_mols.append({'kind': 'history', 'name': name, 'wire': wire.mol_to_ints(src), 'ops': ops})
+            kind = ops[0][1] if ops[0][0] == 'call' else ops[0][0]
+            if sum(1 for x in ctx.broken if x.name.startswith('history/')) < 10:
+                ctx.broke('relational', f'history/{kind}', f'{name} {src}: after {json.dumps(ops)[:300]} -> {[str(r) for r in results][:3]}: '
+                          f'(result, atom, element, charge, stored count, model calc_implicit, bonds) {bad[:3]}')
+    ctx.notes.append(f't+{ctx.elapsed():.0f}s operation histories judged: {len(done)} of {len(cases)} ran')
+
+
+def history_oracle(src, ops):
+    """the same clause judged with the raw element tables on the real code (no Lean model)"""
+    status, results = run_history(src, ops)
+    if results is None:
+        return []
+
+    def calc_of(ri, n, cx):
+        return spec_h(cx[0], cx[1], cx[2], list(cx[3]))[0]
+
+    def accepts(ri, n, cx, h):
+        return h in spec_h(cx[0], cx[1], cx[2], list(cx[3]))[1]
+
+    bad = judge_history(src, results, calc_of, accepts, ops)
+    if not bad:
+        return []
+    kind = ops[0][1] if ops[0][0] == 'call' else ops[0][0]
+    ri, n, sym, q, mark, want, bonds = bad[0]
+    res = results[ri]
+    return [(f'C04/history/{kind}/stored-count-is-not-the-rules-count',
+             f'{src} after {json.dumps(ops)[:300]} -> {res}: atom {n} ({sym}, q={q}) carries implicit_hydrogens={mark} with bonds {bonds}, '
+             f'the element tables give {want}; check_valence()={res.check_valence()}; {len(bad)} such atoms')]
+
+# ------------------------------------------------------------------------------------------------
 # correspondence
 # ------------------------------------------------------------------------------------------------
 
@@ -644,6 +1040,8 @@ def correspond(ctx):
         ctx.sample({'stream': 'mol', 'name': mols[3][0], 'request': 'mol ' + lines[3][:120], 'response': resp[3][:200]})
     # missing atom: calc_implicit(n) raises KeyError, the model reports failure
     ctx.notes.append(f't+{ctx.elapsed():.0f}s molecules compared: {len(mols)}')
+    # -- stream 7: operation histories (options, cutting, transactions) judged with the model's calc_implicit / check_implicit
+    history_stream(ctx)
 
 
 # ------------------------------------------------------------------------------------------------
@@ -927,6 +1325,9 @@ def search(ctx):
             if c['kind'] == 'marks':
                 report(marks_oracle(m), c)
                 continue
+            if c['kind'] == 'history':
+                report(history_oracle(m, c['ops']), c)
+                continue
             report(mol_oracle(m), c)
         except Exception as e:
             ctx.notes.append(f'search: molecule oracle raised {type(e).__name__}')
@@ -1015,6 +1416,9 @@ def probe(inp):
     elif kind == 'marks':
         m, _ = wire.ints_to_mol(inp['wire'], calc=True)
         res = marks_oracle(m)
+    elif kind == 'history':
+        m = molgen.parse(inp['smiles']) if 'smiles' in inp else wire.ints_to_mol(inp['wire'], calc=True)[0]
+        res = history_oracle(m, inp['ops'])
     elif kind == 'smiles':
         res = rdkit_formula_oracle(inp['smiles'])
     else:
